@@ -328,7 +328,21 @@ def g_203(ch, pool, ctx, opts, depth):
         ctx.min_plain += len(use)
     _reserve(ctx, len(use) + n_def)
     ctx.features.add('203')
-    out = [203000 + y] + defs + [203255] + use
+    # a 201 / 202 / 207 scope that covers only the use, or only the definition, of the new reference values
+    # (the scopes of different operators need not be nested)
+    form = 'plain' if ctx.in_numop else ch.weighted([(4, 'plain'), (2, 'use_under_op'), (2, 'def_under_op')])
+    if form != 'plain':
+        _reserve(ctx, 2)
+        op, cancel = ch.choice([(201000 + 128 + ch.int(1, 8), 201000), (202000 + 128 + ch.choice([-2, -1, 1, 2]), 202000),
+                                (207000 + ch.int(1, 3), 207000)])
+        ctx.features.add('203_and_%d_not_nested' % (op // 1000))
+    if form == 'use_under_op':
+        k = ch.int(1, len(use))
+        out = [203000 + y] + defs + [203255] + [op] + use[:k] + [cancel] + use[k:]
+    elif form == 'def_under_op':
+        out = [op, 203000 + y] + defs + [203255, cancel] + use
+    else:
+        out = [203000 + y] + defs + [203255] + use
     unclosed = (opts.allow_unclosed and not opts.balanced_only and depth == 0 and not ctx.in_rep
                 and ch.bool(1, 8))
     if not unclosed:
